@@ -263,6 +263,10 @@ PresenceExact == Kind = "list" => \A r \in Replicas : LET s == st[r].snap  S == 
 SameOrder == Kind = "list" => \A a, b \in Replicas : LET sa == st[a].snap  sb == st[b].snap IN
                \A i, j \in 1..Len(sa) : (i < j /\ LHasId(sb, sa[i].id) /\ LHasId(sb, sa[j].id))
                                             => LIdx(sb, sa[i].id) < LIdx(sb, sa[j].id)
+\* the same statement in a form that is cheap on long lists (used for recorded traces): restricted to the elements
+\* both replicas hold, the two identifier sequences are equal (equivalent to SameOrder given NoDupIds)
+CommonIds(sa, sb) == LET inb == SeqToSet(ListIds(sb)) IN SelectSeq(ListIds(sa), LAMBDA id : id \in inb)
+SameOrderSeq == Kind = "list" => \A a, b \in Replicas : CommonIds(st[a].snap, st[b].snap) = CommonIds(st[b].snap, st[a].snap)
 \* C15: sequence numbers 2, 3, 4, ... per client (1 is the creation operation); a new local operation
 \* is ordered after everything its replica has applied; timestamps of distinct operations differ
 OpsOf(r) == SelectSeq([i \in 1..Len(log) |-> log[i]], LAMBDA e : e.from = r)
